@@ -1170,6 +1170,69 @@ async fn paged_walk_once(rig: &Rig, page_size: usize, obs: &Obs) -> anyhow::Resu
             }
         }
     }
+    // (c) filtered listings of one namespace (console / OpenAPI catalogue: exact or "contains" filters on group and service name),
+    // walked page by page: the pages together list exactly the indexed services that match, each once, and every page reports
+    // that number as the total
+    for ns in NS.iter() {
+        let filters: Vec<(&str, Option<&str>, Option<&str>, Option<&str>, Option<&str>)> = vec![
+            ("like-service", None, None, None, Some("svc")),
+            ("like-service", None, None, None, Some("1")),
+            ("like-service", None, None, None, Some("c2")),
+            ("exact-service", None, Some("svc0"), None, None),
+            ("exact-service", None, Some("svc2"), None, None),
+            ("exact-group", Some("g2"), None, None, None),
+            ("like-group", None, None, Some("g"), None),
+            ("like-group+like-service", None, None, Some("DEFAULT"), Some("2")),
+            ("exact-group+like-service", Some("DEFAULT_GROUP"), None, None, Some("0")),
+        ];
+        for (fam, group, service, like_group, like_service) in filters {
+            let gm = |g: &str| group.map(|x| x == g).unwrap_or_else(|| like_group.map(|x| g.contains(x)).unwrap_or(true));
+            let sm = |sv: &str| service.map(|x| x == sv).unwrap_or_else(|| like_service.map(|x| sv.contains(x)).unwrap_or(true));
+            let want: BTreeSet<(String, String)> = indexed.iter().filter(|k| k.0 == *ns && gm(&k.1) && sm(&k.2)).map(|k| (k.1.clone(), k.2.clone())).collect();
+            let mut got: Vec<(String, String)> = vec![];
+            let mut totals: BTreeSet<usize> = BTreeSet::new();
+            for page in 0..(want.len() / page_size + 3) {
+                let param = ServiceQueryParam {
+                    namespace_id: Some(Arc::new(ns.to_string())),
+                    group: group.map(|x| Arc::new(x.to_string())),
+                    service: service.map(|x| Arc::new(x.to_string())),
+                    like_group: like_group.map(|x| x.to_string()),
+                    like_service: like_service.map(|x| x.to_string()),
+                    offset: page * page_size,
+                    limit: page_size,
+                    ..Default::default()
+                };
+                if let NamingResult::ServiceInfoPage((size, list)) = rig.cmd(NamingCmd::QueryServiceInfoPage(param)).await? {
+                    totals.insert(size);
+                    for d in list {
+                        got.push((d.group_name.as_ref().clone(), d.service_name.as_ref().clone()));
+                    }
+                }
+            }
+            let set: BTreeSet<(String, String)> = got.iter().cloned().collect();
+            let dir = if set.len() != got.len() {
+                Some("listed-twice")
+            } else if want.difference(&set).next().is_some() {
+                Some("matching-service-skipped")
+            } else if set.difference(&want).next().is_some() {
+                Some("non-matching-service-listed")
+            } else if totals.iter().any(|t| *t != want.len()) {
+                Some("total-differs-from-matches")
+            } else {
+                None
+            };
+            if let Some(dir) = dir {
+                f.push(Finding {
+                    mirror: "public/filtered-service-page-walk",
+                    dir,
+                    svc: None,
+                    detail: json!({"namespace": ns, "filter_family": fam, "group": group, "service": service, "like_group": like_group, "like_service": like_service,
+                                   "page_size": page_size, "walk": got, "totals_reported": totals, "matching_indexed": want}),
+                });
+                break;
+            }
+        }
+    }
     // compare as multisets of (group, service) because the rows do not say which namespace they are from
     let mut want_ms: BTreeMap<(String, String), i64> = BTreeMap::new();
     for k in &indexed {
